@@ -307,6 +307,88 @@ def known_findings(pid):
     return [k for k in json.load(open(p))["findings"] if k["property"] == pid]
 
 
+def _witness_fails(w):
+    """does the recorded witness of a finding still fail?  Two forms:
+       runs: [{files: [[name, text], ...], roots, budget, defines}], fails_when: one of
+             "differ" (the runs give different results), "first_ok", "first_err", "first_is:<canonical line prefix>"
+             - run in-process through the oracle harness;
+       cli:  {files: {name: text}, argv: [...]}, fails_when: {"exit": n, "stdout_has": s, "stderr_has": s, "file_absent": name,
+             "file_equals": [a, b]} (all given conditions must hold) - run with the binary built from /repo."""
+    import subprocess, tempfile, shutil
+    if "runs" in w:
+        ops = [asm_op([tuple(f) for f in r["files"]], roots=r.get("roots", 1), max_iter=r.get("budget", 10),
+                      opt_s=r.get("opt_s", True), opt_m=r.get("opt_m", True),
+                      defs=[tuple(d) for d in r["defines"]] if r.get("defines") else None) for r in w["runs"]]
+        lines = [asm_line(a) for a in run_oracle_resilient(ops, "wit")]
+        bits = [(l.split(" ")[1] if l.startswith("ok ") else l) for l in lines]
+        fw_ = w["fails_when"]
+        if fw_ == "differ":
+            return len(set(bits)) > 1, lines
+        if fw_ == "first_ok":
+            return lines[0].startswith("ok "), lines
+        if fw_ == "first_err":
+            return lines[0].startswith("err") or lines[0] == "panic", lines
+        if fw_.startswith("first_is:"):
+            return lines[0].startswith(fw_[len("first_is:"):]), lines
+        raise ValueError(fw_)
+    c = w["cli"]
+    binary = build_real_binary()
+    d = tempfile.mkdtemp(prefix="wit", dir=CACHE)
+    try:
+        for n, t in c["files"].items():
+            os.makedirs(os.path.dirname(os.path.join(d, n)) or d, exist_ok=True)
+            open(os.path.join(d, n), "wb").write(t.encode("utf-8", "surrogateescape"))
+        try:
+            so_ = open(c["stdout_to"], "wb") if c.get("stdout_to") else subprocess.PIPE
+            r = subprocess.run([binary] + c["argv"], cwd=os.path.join(d, c.get("cwd", ".")), stdout=so_, stderr=subprocess.PIPE, timeout=c.get("timeout", 30))
+            if so_ is not subprocess.PIPE:
+                so_.close()
+                r.stdout = b"" 
+            rc, so, se = r.returncode, r.stdout.decode(errors="replace"), r.stderr.decode(errors="replace")
+        except subprocess.TimeoutExpired:
+            rc, so, se = "timeout", "", ""
+        f = w["fails_when"]
+        ok = True
+        if "exit" in f:
+            ok = ok and rc == f["exit"]
+        if "stdout_has" in f:
+            ok = ok and f["stdout_has"] in so
+        if "stdout_lacks" in f:
+            ok = ok and f["stdout_lacks"] not in so
+        if "stderr_has" in f:
+            ok = ok and f["stderr_has"] in (se + so)
+        if "file_absent" in f:
+            ok = ok and not os.path.exists(os.path.join(d, f["file_absent"]))
+        if "file_not_text" in f:
+            a = os.path.join(d, f["file_not_text"][0])
+            ok = ok and os.path.exists(a) and open(a, "rb").read() != f["file_not_text"][1].encode()
+        if "file_equals" in f:
+            a, b = [os.path.join(d, x) for x in f["file_equals"]]
+            ok = ok and os.path.exists(a) and os.path.exists(b) and open(a, "rb").read() == open(b, "rb").read()
+        return ok, ["exit %s" % rc, so[-200:], se[-200:]]
+    finally:
+        shutil.rmtree(d, ignore_errors=True)
+
+
+def replay_generic_witnesses(chk):
+    """recorded findings that no generator reaches (classifier `witness`): their witnesses are replayed on every run; a witness that
+    still fails is reported as KNOWN-FINDING, one that no longer fails is only noted (nothing is suppressed by these entries)"""
+    for kf in known_findings(chk.pid):
+        if kf.get("status") != "open" or kf.get("signature", {}).get("classifier") != "witness":
+            continue
+        try:
+            fails, got = _witness_fails(kf["replay"])
+        except Exception as e:            # a witness that cannot be run says nothing
+            chk.notes.append("known finding %s: witness could not be run (%s)" % (kf["id"], e))
+            continue
+        chk.evaluations += 1
+        chk.count("witness_replayed")
+        if fails:
+            chk.known(kf["id"], kf["observed"])
+        else:
+            chk.notes.append("known finding %s no longer reproduces on its witness: %s" % (kf["id"], str(got)[:200]))
+
+
 # ---------------------------------------------------------------- result handling
 
 class Check:
